@@ -463,6 +463,45 @@ theorem deleteUser_cases (env : Env) (s : Server) (w : ResponseWriter) (rq : HTT
     | none => simp at h; exact Or.inl ⟨rfl, by rw [← h]; rfl⟩
     | some x => simp at h; exact Or.inr ⟨x, rfl, by rw [← h]; rfl⟩
 
+/-- C19: a shortcut is stored under the name in the path with the body's service provider, relay state and suffix rule untouched;
+    204 only after the store accepted it -/
+theorem putShortcut_cases (env : Env) (s : Server) (w : ResponseWriter) (rq : HTTPRequest) (body : Shortcut) (tr : List Event)
+    (h : putShortcutTail env s w (some rq) body = .ok tr) :
+    let key := "/shortcuts/" ++ env.pathValue rq "id"
+    let stored : Shortcut := { body with Name := env.pathValue rq "id" }
+    (env.storePut_Shortcut key stored = .ok none ∧ tr = [evStorePut key, evNoContent]) ∨
+    (∃ e, env.storePut_Shortcut key stored = .ok (some e) ∧ tr = [evStorePut key, evServerError]) := by
+  intro key stored
+  unfold putShortcutTail at h
+  simp only [deref_some, Outcome.ok_bind', Outcome.pure_eq_ok] at h
+  cases hp : env.storePut_Shortcut key stored with
+  | err x => simp [key, stored, hp] at h
+  | panic x => simp [key, stored, hp] at h
+  | ok e =>
+    simp only [key, stored] at hp
+    simp only [hp, Outcome.ok_bind'] at h
+    cases e with
+    | none => simp at h; exact Or.inl ⟨rfl, by rw [← h]; rfl⟩
+    | some x => simp at h; exact Or.inr ⟨x, rfl, by rw [← h]; rfl⟩
+
+theorem deleteShortcut_cases (env : Env) (s : Server) (w : ResponseWriter) (rq : HTTPRequest) (tr : List Event)
+    (h : HandleDeleteShortcut env s w (some rq) = .ok tr) :
+    let key := "/shortcuts/" ++ env.pathValue rq "id"
+    (env.storeDelete key = .ok none ∧ tr = [evStoreDelete key, evNoContent]) ∨
+    (∃ e, env.storeDelete key = .ok (some e) ∧ tr = [evStoreDelete key, evServerError]) := by
+  intro key
+  unfold HandleDeleteShortcut at h
+  simp only [deref_some, Outcome.ok_bind', Outcome.pure_eq_ok] at h
+  cases hd : env.storeDelete key with
+  | err x => simp [key, hd] at h
+  | panic x => simp [key, hd] at h
+  | ok e =>
+    simp only [key] at hd
+    simp only [hd, Outcome.ok_bind'] at h
+    cases e with
+    | none => simp at h; exact Or.inl ⟨rfl, by rw [← h]; rfl⟩
+    | some x => simp at h; exact Or.inr ⟨x, rfl, by rw [← h]; rfl⟩
+
 theorem TransI_registry_no_failures : TransI.transFailures = [] := by decide
 
 end SamlVerif.TransRegistry
